@@ -416,6 +416,49 @@ def monitorDelay (c : DelayCfg) (pre : Delay) (seq : List Bool) (obs : String) :
     | r :: _ => return "violated:" ++ r
     | [] => return "ok"
 
+/-! ### conc: n messages through ONE wrapped handler value at the same time -/
+
+/-- number of i < n with i % t = k -/
+def countOf (n t k : Nat) : Nat := if t = 0 then 0 else (n + t - 1 - k) / t
+
+/-- the model has no state outside the message: every call is the sequential run of its own message -/
+def modelConc (mws : List Mw) (m : MsgSpec) (templates : List Res) (n : Nat) : String :=
+  let t := templates.length
+  let groups := (List.range t).map fun k =>
+    toString (countOf n t k) ++ "* " ++ modelStack mws m [templates.getD k (.ret [] none)]
+  String.intercalate " || " groups
+
+/-- every call returns its own handler's outputs and error: per template exactly one kind of observation, for all of
+    its calls, and that observation satisfies the statement for a single call -/
+def monitorConc (mws : List Mw) (m : MsgSpec) (templates : List Res) (n : Nat) (obs : String) : String := Id.run do
+  let t := templates.length
+  let groups := obs.splitOn " || "
+  if groups.length != t then return "violated:unreadable_observation"
+  let mut k := 0
+  for g in groups do
+    let entries := g.splitOn " ;; "
+    let mut total := 0
+    for e in entries do
+      match e.splitOn "* " with
+      | cnt :: rest =>
+        match cnt.toNat? with
+        | none => return "violated:unreadable_observation"
+        | some c =>
+          total := total + c
+          let o := String.intercalate "* " rest
+          if o = "hang" then return "violated:hang"
+          match parseObs o with
+          | none => return "violated:concurrent_call_returns_own_result"
+          | some ob =>
+            let v := monitorStack mws m [templates.getD k (.ret [] none)] ob
+            if v != "ok" then
+              -- calls of one kind disagreeing among themselves: interference between calls
+              return (if entries.length > 1 then "violated:concurrent_call_returns_own_result" else v)
+      | [] => return "violated:unreadable_observation"
+    if total != countOf n t k then return "violated:concurrent_call_count"
+    k := k + 1
+  return "ok"
+
 def ctxKindOk (c : String) : Bool := c = "live" || c = "cancelled" || c = "timeout"
 
 /-- `stackn` = `stack` executed in a program with GODEBUG=panicnil=1 (recover() returns nil for panic(nil)): the
@@ -444,6 +487,17 @@ def handle (line : String) : String :=
       | some o => monitorStack mws m sc o
       | none => "violated:unreadable_observation"
     | _, _, _ => "bad-op"
+  | ["M", "conc", mws, msg, templates, g, n] =>
+    match parseMws mws, parseMsg msg, parseScript templates, g.toNat?, n.toNat? with
+    | some mws, some m, some ts, some g, some n => if g = 0 || n = 0 then "bad-op" else modelConc mws m ts n
+    | _, _, _, _, _ => "bad-op"
+  | "P" :: "conc" :: mws :: msg :: templates :: g :: n :: "##" :: obs =>
+    match parseMws mws, parseMsg msg, parseScript templates, g.toNat?, n.toNat? with
+    | some mws, some m, some ts, some g, some n =>
+      if g = 0 || n = 0 then "bad-op"
+      else if obs = ["hang"] then "violated:hang"
+      else monitorConc mws m ts n (String.intercalate " " obs)
+    | _, _, _, _, _ => "bad-op"
   | ["M", "throttle", n, count, dur, k, ctx] =>
     match n.toNat?, count.toNat?, dur.toNat?, k.toNat? with
     | some n, some c, some d, some k =>
